@@ -8,8 +8,11 @@
 //!
 //! case lines (one file per line, many runs per line):
 //!   cio  <limit|-> <hex file> <sched>/<fail|-> ...                         -> results joined by " | "
-//!   ciof <hex file> <sched>/<fail|->/<impl outcome>/<impl calls> ...       -> "AGREE" per run (the oracle compares:
-//!        the model stops where the payload decoder starts, so the comparison is one-sided when the header is fine)
+//!   ciof <hex file> <sched>/<fail|->/<frame>;<frame>;... ...   with <frame> = <calls at the start of this read_frame>,
+//!        <OK|ERR:cls|PANIC>,<calls at its end>,<next_frame_start after it>   -> "AGREE" per run (the oracle compares:
+//!        the model stops where the payload decoder starts, so the comparison is one-sided when the header is fine;
+//!        read_frame is called for successive frames until one is not OK, so the loop that steps over the chunks
+//!        between two ANMF chunks is exercised)
 //!   sched: w (whole) | c<k> (k bytes per call) | h<seed> (1 + top 4 bits of a 32-bit hash of call index + seed)
 //!          | l<a.b.c> (explicit list, cyclic)
 //! The property itself is also decided here on every run (independent of the model): fault-free results equal the
@@ -213,24 +216,89 @@ pub fn run_cio_kind(data: &Rc<Vec<u8>>, sched: &Sched, fail_at: Option<u64>, fai
     }
 }
 
-/// new (must succeed) + the first read_frame: (outcome word, calls at the end, calls after new)
-pub fn run_frame(data: &Rc<Vec<u8>>, sched: &Sched, fail_at: Option<u64>) -> Option<(String, u64, u64)> {
-    let (r, calls, _fired) = IoReader::new(data.clone(), sched.clone(), fail_at);
+/// one read_frame call: calls at its start, outcome word, calls at its end, next_frame_start after it
+pub struct FrameRes { pub c_start: u64, pub outcome: String, pub c_end: u64, pub nfs: u64, pub fired: bool }
+
+/// new (must succeed, animated) + read_frame for up to `max_frames` frames, stopping at the first one that is not OK
+pub fn run_frames(data: &Rc<Vec<u8>>, sched: &Sched, fail_at: Option<u64>, max_frames: u32) -> Option<Vec<FrameRes>> {
+    let (r, calls, fired) = IoReader::new(data.clone(), sched.clone(), fail_at);
     let calls2 = calls.clone();
+    let done: Rc<std::cell::RefCell<Vec<FrameRes>>> = Rc::new(std::cell::RefCell::new(vec![]));
+    let done2 = done.clone();
     let res = catch(std::panic::AssertUnwindSafe(move || {
-        let mut d = match WebPDecoder::new(r) { Ok(d) => d, Err(_) => return None };
-        let c_new = calls.get();
-        if !d.is_animated() { return None; }
-        let sz = d.output_buffer_size()?;
-        if sz > 16 << 20 { return None; }
+        let mut d = match WebPDecoder::new(r) { Ok(d) => d, Err(_) => return false };
+        if !d.is_animated() { return false; }
+        let Some(sz) = d.output_buffer_size() else { return false };
+        if sz > 16 << 20 { return false; }
         let mut buf = vec![0u8; sz];
-        let o = match d.read_frame(&mut buf) { Ok(_) => "OK".to_string(), Err(e) => format!("ERR:{}", class(&e)) };
-        Some((o, calls.get(), c_new))
+        for _ in 0..d.num_frames().min(max_frames) {
+            let c_start = calls.get();
+            let before = fired.get();
+            // the entry is pushed before the call so that a panic leaves a trace of where it happened
+            done.borrow_mut().push(FrameRes { c_start, outcome: "PANIC".into(), c_end: c_start, nfs: 0, fired: false });
+            let o = match d.read_frame(&mut buf) { Ok(_) => "OK".to_string(), Err(e) => format!("ERR:{}", class(&e)) };
+            let ok = o == "OK";
+            let (_, nfs) = d.verif_chunk_table();
+            *done.borrow_mut().last_mut().unwrap() = FrameRes { c_start, outcome: o, c_end: calls.get(), nfs, fired: fired.get() && !before };
+            if !ok { break; }
+        }
+        true
     }));
     match res {
-        Ok(x) => x,
-        Err(_) => Some(("PANIC".into(), calls2.get(), 0)),
+        Ok(true) => Some(std::mem::take(&mut *done2.borrow_mut())),
+        Ok(false) => None,
+        Err(_) => {
+            let mut v = std::mem::take(&mut *done2.borrow_mut());
+            if let Some(l) = v.last_mut() { l.c_end = calls2.get(); }
+            if v.is_empty() { None } else { Some(v) }
+        }
     }
+}
+fn frames_word(v: &[FrameRes]) -> String {
+    v.iter().map(|f| format!("{},{},{},{}", f.c_start, f.outcome, f.c_end, f.nfs)).collect::<Vec<_>>().join(";")
+}
+
+/// animations of decodable (libwebp-encoded) frames with 1..3 unknown / metadata chunks between the ANMF chunks
+/// (sometimes also before the first and after the last one): read_frame has to step over them
+fn gap_animations(r: &mut Rng, n: usize) -> Vec<corpus::Item> {
+    let mut v = vec![];
+    for it in corpus::generated_animations(r, n, 12) {
+        let cs = mux::parse_chunks(&it.bytes);
+        let mut out: Vec<mux::Chunk> = vec![];
+        let mut seen_anmf = false;
+        let mut gaps = 0;
+        let filler = |r: &mut Rng| -> mux::Chunk {
+            let cc = *r.pick(&["abcd", "wxyz", "EXIF", "XMP ", "ICCP", "ALPH", "VP8 "]);
+            let k = *r.pick(&[0usize, 1, 2, 3, 8, 17]);
+            (mux::fourcc(cc), r.bytes(k))
+        };
+        // half of the files: one frame after the first gets a header error that read_frame detects only after it has
+        // stepped over the chunks in front of it (x offset beyond the canvas -> FrameOutsideImage after 4 more reads;
+        // or an ANMF chunk of 24..31 bytes in front of it -> ChunkHeaderInvalid), so that the call count of the
+        // skipping loop is compared exactly
+        let n_anmf = cs.iter().filter(|c| &c.0 == b"ANMF").count();
+        let spoil = if n_anmf >= 2 && r.chance(1, 2) { Some((r.range(1, n_anmf as u64 - 1) as usize, r.chance(1, 2))) } else { None };
+        let mut idx = 0usize;
+        for mut c in cs {
+            if &c.0 == b"ANMF" {
+                if seen_anmf || r.chance(1, 4) {
+                    for _ in 0..r.range(1, 3) { out.push(filler(r)); gaps += 1; }
+                }
+                if let Some((j, outside)) = spoil {
+                    if j == idx {
+                        if outside { c.1[0] = 0xff; c.1[1] = 0xff; c.1[2] = 0xff; }
+                        else { let k = r.range(24, 31) as usize; out.push((mux::fourcc("ANMF"), c.1[..k.min(c.1.len())].to_vec())); }
+                    }
+                }
+                idx += 1;
+                seen_anmf = true;
+            }
+            out.push(c);
+        }
+        if r.chance(1, 3) { out.push(filler(r)); }
+        v.push(corpus::Item { name: format!("gap_{}_{}", gaps, it.name), bytes: mux::riff(&out), kind: "gap_animation" });
+    }
+    v
 }
 
 // ---------------------------------------------------------------------------------------------------
@@ -381,6 +449,7 @@ pub fn run(tier: &str, seed: u64, outdir: &str, extra: &[String]) {
     let (mut runs, mut fault_runs, mut sched_runs, mut frame_runs, mut files_n, mut max_calls) = (0u64, 0u64, 0u64, 0u64, 0u64, 0u64);
     let (mut eof_runs, mut eof_swallowed, mut eof_swallowed_partial) = (0u64, 0u64, 0u64);
     let mut eof_samples: Vec<String> = vec![];
+    let mut frames_reached = 0u64;
 
     if tier == "replay" {
         // every line is a `cio` / `ciof` case line; the runs are redone and the property is decided again
@@ -416,6 +485,7 @@ pub fn run(tier: &str, seed: u64, outdir: &str, extra: &[String]) {
     let mut rng = Rng::new(seed);
     let mut files = corpus::standard(&mut rng, tier);
     files.extend(synthetic(&mut rng, if thorough { 400 } else { 80 }));
+    files.extend(gap_animations(&mut rng, if thorough { 120 } else { 24 }));
     // the witness of coq/Proofs/ContainerIO_examples.v (eof_kind_fault_swallowed) and its still companion
     files.push(corpus::Item { name: "coq_anim_bytes".into(), bytes: unhex(COQ_ANIM_BYTES), kind: "synthetic" });
     files.push(corpus::Item { name: "coq_meta_bytes".into(), bytes: unhex(COQ_META_BYTES), kind: "synthetic" });
@@ -512,21 +582,33 @@ pub fn run(tier: &str, seed: u64, outdir: &str, extra: &[String]) {
         }
         out.case(&format!("cio {} {} {}", limit.map(|l| l.to_string()).unwrap_or("-".into()), hex(&it.bytes), specs.join(" ")), &res.join(" | "));
 
-        // ---- read_frame header (animated files whose `new` succeeds)
+        // ---- read_frame headers of successive frames (animated files whose `new` succeeds)
         if base.parts.first().map(|p| p.starts_with("new=OK")).unwrap_or(false) {
             let mut fspecs: Vec<String> = vec![];
+            let max_frames = if thorough { 8 } else { 5 };
             for s in [Sched::Whole, Sched::Const(1), Sched::Const(5), Sched::Hash(7)] {
-                let Some((o, c_end, c_new)) = run_frame(&data, &s, None) else { continue };
+                let Some(fr) = run_frames(&data, &s, None, max_frames) else { continue };
+                if fr.is_empty() { continue; }
                 frame_runs += 1; runs += 1;
-                if o == "PANIC" { violations.push(format!("read_frame PANIC : ciof {} {}/-", hex(&it.bytes), s.word())); }
-                fspecs.push(format!("{}/-/{}/{}", s.word(), o, c_end));
-                // faults from the first call of read_frame on: the header takes at most 8 read_exact + 1 seek
-                let span = (c_end - c_new).min(if thorough { 200 } else if big { 12 } else { 40 });
-                for k in c_new..c_new + span {
-                    let Some((o, c, _)) = run_frame(&data, &s, Some(k)) else { continue };
-                    frame_runs += 1; runs += 1;
-                    if o == "OK" || o == "PANIC" { violations.push(format!("read_frame returned {o} with a fault at call {k} : ciof {} {}/{k}", hex(&it.bytes), s.word())); }
-                    fspecs.push(format!("{}/{}/{}/{}", s.word(), k, o, c));
+                frames_reached = frames_reached.max(fr.len() as u64);
+                if fr.iter().any(|f| f.outcome == "PANIC") { violations.push(format!("read_frame PANIC : ciof {} {}/-", hex(&it.bytes), s.word())); }
+                fspecs.push(format!("{}/-/{}", s.word(), frames_word(&fr)));
+                // one fault at each of the first calls of every read_frame (seek, skipped chunks, ANMF header, sub-chunk header)
+                let span_max = if thorough { 120 } else if big { 10 } else { 30 };
+                for f0 in &fr {
+                    let span = (f0.c_end - f0.c_start).min(span_max);
+                    for k in f0.c_start..f0.c_start + span {
+                        let Some(ff) = run_frames(&data, &s, Some(k), max_frames) else { continue };
+                        frame_runs += 1; runs += 1;
+                        for f in &ff {
+                            if f.fired && (f.outcome == "OK" || f.outcome == "PANIC") {
+                                violations.push(format!("read_frame returned {} with a fault at call {k} : ciof {} {}/{k}", f.outcome, hex(&it.bytes), s.word()));
+                            }
+                            if f.outcome == "PANIC" && !f.fired { violations.push(format!("read_frame PANIC : ciof {} {}/{k}", hex(&it.bytes), s.word())); }
+                        }
+                        if ff.is_empty() { continue; }
+                        fspecs.push(format!("{}/{}/{}", s.word(), k, frames_word(&ff)));
+                    }
                 }
             }
             if !fspecs.is_empty() {
@@ -538,7 +620,7 @@ pub fn run(tier: &str, seed: u64, outdir: &str, extra: &[String]) {
 
     let stats = format!(
         "{{\"check\":\"c10io\",\"tier\":{},\"seed\":{seed},\"evaluations\":{runs},\"files\":{files_n},\"schedule_runs\":{sched_runs},\"fault_runs\":{fault_runs},\
-\"frame_header_runs\":{frame_runs},\"max_io_calls_in_a_run\":{max_calls},\"eof_kind_fault_runs\":{eof_runs},\"known_eof-kind-fault-ends-chunk-scan\":{eof_swallowed},\
+\"frame_header_runs\":{frame_runs},\"max_frames_in_a_run\":{frames_reached},\"max_io_calls_in_a_run\":{max_calls},\"eof_kind_fault_runs\":{eof_runs},\"known_eof-kind-fault-ends-chunk-scan\":{eof_swallowed},\
 \"eof_kind_faults_swallowed_with_partial_result\":{eof_swallowed_partial},\"eof_kind_samples\":[{}],\"distribution\":{{{}}},\"n_violations\":{},\"violations\":[{}]}}",
         jstr(tier), eof_samples.iter().map(|v| jstr(v)).collect::<Vec<_>>().join(","),
         dist.iter().map(|(k, v)| format!("{}:{}", jstr(k), v)).collect::<Vec<_>>().join(","),
